@@ -1,64 +1,12 @@
 ----------------------------- MODULE FluxSolver -----------------------------
 (***************************************************************************)
-(* The flux calculation (pyvaporation/pervaporation/pervaporation.py:32-161)*)
-(* as a state machine.                                                      *)
-(*   Seed     y := Y(P (.) pf)                      vacuum fluxes           *)
-(*   Iterate  y := Y(P (.) (pf - PermPress(y)))     while d >= precision    *)
-(*   Exit     J := P (.) (pf - PermPress(y))        final re-evaluation     *)
-(*   GiveUp   raise after MaxIter iterations        (the iteration bound)   *)
-(*   Reject   raise when an iterate is no valid composition                 *)
-(* inp = [P1, P2, prec, pf |-> <<pf1, pf2>>, ...] ; PermPress(inp, y) gives  *)
-(* the permeate-side partial pressures at permeate mass fraction y (per     *)
-(* permeate mode) and is supplied by the instantiating module.              *)
+(* FluxSolverCore (the machine Seed / Iterate / GiveUp / Exit and its       *)
+(* clauses) plus the same computation as a recursive FUNCTION of the input, *)
+(* used for twin relations and as the reference for recorded executions.    *)
+(* (Kept apart because the proof system does not read RECURSIVE operators:  *)
+(* tla/proofs/FluxSolverProofs.tla is about FluxSolverCore.)                *)
 (***************************************************************************)
-EXTENDS Integers, Sequences
-CONSTANTS Add(_,_), Sub(_,_), Mul(_,_), Div(_,_), Lt(_,_), Le(_,_), Eq(_,_,_), Dec(_),
-          PermPress(_,_),
-          Bounded, MaxIter          \* Bounded = FALSE: the loop as originally written (no bound, and no
-                                    \* counter: where the map cycles the state space is finite and TLC's
-                                    \* liveness check finds the cycle)
-VARIABLES inp, y, d, n, pc, J
-
-vars == <<inp, y, d, n, pc, J>>
-Zero == Dec("0")
-One  == Dec("1")
-Neg(x) == Sub(Zero, x)
-Abs(x) == IF Lt(x, Zero) THEN Neg(x) ELSE x
-Max(x, z) == IF Lt(x, z) THEN z ELSE x
-
-(* ------------------------- pure operators -------------------------------- *)
-Y(j)              == Div(j[1], Add(j[1], j[2]))              \* permeate mass fraction of fluxes j
-FluxAt(P1, P2, pf, pp) == <<Mul(P1, Sub(pf[1], pp[1])), Mul(P2, Sub(pf[2], pp[2]))>>
-ValidY(v)         == Le(Zero, v) /\ Le(v, One)               \* the Composition validator
-Dist(y0, y1)      == Max(Abs(Sub(y1, y0)), Abs(Sub(Sub(One, y1), Sub(One, y0))))
-Continue(dd, prec) == ~Lt(dd, prec)                          \* while d >= precision
-
-(* ------------------------------ actions ---------------------------------- *)
-Seed ==
-  /\ pc = "start"
-  /\ LET y0 == Y(<<Mul(inp.P1, inp.pf[1]), Mul(inp.P2, inp.pf[2])>>)
-     IN IF ValidY(y0)
-        THEN y' = y0 /\ d' = One /\ n' = 0 /\ pc' = "loop" /\ UNCHANGED <<inp, J>>
-        ELSE pc' = "raised" /\ UNCHANGED <<inp, y, d, n, J>>
-
-Iterate ==
-  /\ pc = "loop" /\ Continue(d, inp.prec) /\ (Bounded => n < MaxIter)
-  /\ LET yn == Y(FluxAt(inp.P1, inp.P2, inp.pf, PermPress(inp, y)))
-     IN IF ValidY(yn)
-        THEN y' = yn /\ d' = Dist(y, yn) /\ n' = (IF Bounded THEN n + 1 ELSE n) /\ UNCHANGED <<inp, pc, J>>
-        ELSE pc' = "raised" /\ UNCHANGED <<inp, y, d, n, J>>
-
-GiveUp ==
-  /\ Bounded /\ pc = "loop" /\ Continue(d, inp.prec) /\ n >= MaxIter
-  /\ pc' = "raised" /\ UNCHANGED <<inp, y, d, n, J>>
-
-Exit ==
-  /\ pc = "loop" /\ ~Continue(d, inp.prec)
-  /\ J' = FluxAt(inp.P1, inp.P2, inp.pf, PermPress(inp, y))
-  /\ pc' = "returned" /\ UNCHANGED <<inp, y, d, n>>
-
-Next == Seed \/ Iterate \/ GiveUp \/ Exit
-Done == pc \in {"returned", "raised"}
+EXTENDS FluxSolverCore
 
 (* ---- the same computation as a function of the input (used for twin relations) ---- *)
 RECURSIVE LoopFrom(_, _, _, _)
@@ -73,14 +21,4 @@ Solve(i) ==
   LET y0 == Y(<<Mul(i.P1, i.pf[1]), Mul(i.P2, i.pf[2])>>)
   IN IF ValidY(y0) THEN LoopFrom(i, y0, One, 0) ELSE [pc |-> "raised", y |-> y0, n |-> 0, J |-> <<Zero, Zero>>]
 
-(* --------------- clauses of C02 / C10 on the machine's state ------------- *)
-\* returned fluxes obey the law at the permeate composition the machine stopped at
-Law(scale) == (pc = "returned") =>
-  LET pp == PermPress(inp, y)
-  IN /\ Eq(J[1], Mul(inp.P1, Sub(inp.pf[1], pp[1])), scale)
-     /\ Eq(J[2], Mul(inp.P2, Sub(inp.pf[2], pp[2])), scale)
-\* the loop was left because the last change was below the precision
-ExitedBelowPrecision == (pc = "returned") => Lt(d, inp.prec)
-\* evaluations are bounded
-BoundedEvaluations == Bounded => n <= MaxIter
 =============================================================================
